@@ -43,13 +43,19 @@ func findNextExecutionRequestsWithCache(
 	for _, dependent := range step.Then {
 		// joining on symbol we will not find in insertion point
 		key := strings.Join(dependent.InsertionPoint, "❤️")
+		// a step on a root type (below a field such as `query: Query`) completes an object without id
+		withID := !common.IsRootObjectName(dependent.ParentType)
+		if !withID {
+			key += "❤️"
+		}
 		v, ok := executorFindInsertionPointsCache[key]
 		if !ok {
-			insertPoints, err = FindInsertionPoints(
+			insertPoints, err = findInsertionPoints(
 				dependent.InsertionPoint,
 				step.SelectionSet,
 				queryResult,
 				[][]string{insertionPoint},
+				withID,
 			)
 			if err != nil {
 				return nil, err
@@ -82,11 +88,12 @@ func findNextExecutionRequestsAsync(
 		step.Then,
 		nextExecutionRequests,
 		func(field *planner.QueryPlanStep) ([]*ExecutionRequest, error) {
-			insertPoints, err := FindInsertionPoints(
+			insertPoints, err := findInsertionPoints(
 				field.InsertionPoint,
 				step.SelectionSet,
 				queryResult,
 				[][]string{insertionPoint},
+				!common.IsRootObjectName(field.ParentType),
 			)
 			if err != nil {
 				return nil, err
